@@ -61,11 +61,11 @@ fn lcg(n: usize) -> Vec<u8> {
         .collect()
 }
 
-pub fn small_payloads() -> Vec<Vec<u8>> {
+pub fn small_payloads(n: usize) -> Vec<Vec<u8>> {
     let alphabet = [0x00u8, 0x01, 0xff, b'a'];
     let mut out: Vec<Vec<u8>> = vec![vec![]];
     let mut layer: Vec<Vec<u8>> = vec![vec![]];
-    for _ in 0..6 {
+    for _ in 0..n {
         let mut next = vec![];
         for p in &layer {
             for b in alphabet {
@@ -224,7 +224,7 @@ fn judge(s: &Setting, label: &str, x: &[u8], interop: Option<&mut CodecOracle>, 
 pub fn run(tier: Tier, replay: Option<&J>) -> i32 {
     let start = Instant::now();
     oracle::self_test();
-    let small = small_payloads();
+    let small = small_payloads(if tier == Tier::Quick { 5 } else { 6 });
     let sized = sized_payloads(tier);
     let all = settings_all();
     let defaults = settings_default();
@@ -320,7 +320,7 @@ pub fn run(tier: Tier, replay: Option<&J>) -> i32 {
         id: "C15".into(),
         tier,
         level: "model_checking",
-        rule: "(1) all byte strings of length <= 6 over {00,01,ff,'a'} at the default settings of every codec; (2) every setting the settings types can express (6 deflate levels, all 256 u8 levels of bzip2/xz/zstandard) on probe payloads: out-of-range levels must be an error or a clamped valid stream, never a panic; (3) payload sizes around codec windows/blocks {0,1,2,15-17,255-257,4095-4097,32767-32769,65535-65537,100000,300001(,2^20+1)} x {zeros, abc, ramp, incompressible noise}. Oracle: round trip; raw-deflate / bzip2 / xz / zstd streams accepted by python zlib(-15)/bz2/lzma and the zstd CLI and vice versa; snappy = independently decodable raw stream + big-endian CRC-32, all 32 single-bit checksum corruptions rejected. A class is (codec, level, payload size)".into(),
+        rule: "(1) all byte strings of length <= 5 (quick) / 6 (thorough) over {00,01,ff,'a'} at the default settings of every codec; (2) every setting the settings types can express (6 deflate levels, all 256 u8 levels of bzip2/xz/zstandard) on probe payloads: out-of-range levels must be an error or a clamped valid stream, never a panic; (3) payload sizes around codec windows/blocks {0,1,2,15-17,255-257,4095-4097,32767-32769,65535-65537,100000,300001(,2^20+1)} x {zeros, abc, ramp, incompressible noise}. Oracle: round trip; raw-deflate / bzip2 / xz / zstd streams accepted by python zlib(-15)/bz2/lzma and the zstd CLI and vice versa; snappy = independently decodable raw stream + big-endian CRC-32, all 32 single-bit checksum corruptions rejected. A class is (codec, level, payload size)".into(),
         bounds: json!({"small_payloads": small.len(), "sized_payloads": sized.len(), "settings": all.len(), "work_items": items.len()}),
         assumptions: vec!["python zlib/bz2/lzma are the reference codecs; zstandard interop uses the zstd CLI (same upstream code base, separate build); snappy is checked against the harness's own decoder written from the format description".into()],
         exhaustive: replay.is_none(),
